@@ -15,8 +15,8 @@ ID = "C15"
 LEVEL = "exploration"
 EXHAUSTIVE = True
 RULE = ("random populations (2-7 instances of Person/Employee/Manager, Org/Dept, Chief roles) and fact sets of 1-8 "
-        "facts over {works_for, head_of, member_of, members, sub_org_of (transitive), part_of/has_part (transitive + "
-        "inverse)} including chains, diamonds and cycles, asserted in a random order through a random write form "
+        "facts over {works_for, head_of, member_of, members, sub_org_of (transitive), wholly_owned_by (sub-property of "
+        "sub_org_of), part_of/has_part (transitive + inverse)} including chains, diamonds and cycles, asserted in a random order through a random write form "
         "(assignment, container assignment while empty, append, extend, insert, add, update); a bank of fixed fact sets "
         "(chains, diamond, cycles, role-taker chains) is run in ALL permutations (<=5 facts quick, <=6 thorough).  "
         "Non-trivial = the closure contains at least two derived facts beyond the asserted ones; distinct = (fact "
@@ -46,7 +46,8 @@ LIST_FORMS = ["append", "append", "extend", "insert", "assign_empty"]
 SET_FORMS = ["add", "add", "update", "assign_empty"]
 FIELD_KIND = {"works_for": ("person", "org", "single"), "head_of": ("chief", "org", "single"),
               "member_of": ("person", "org", "list"), "members": ("org", "member", "set"),
-              "sub_org_of": ("org", "org", "list"), "part_of": ("org", "org", "list"), "has_part": ("org", "org", "list")}
+              "sub_org_of": ("org", "org", "list"), "part_of": ("org", "org", "list"), "has_part": ("org", "org", "list"),
+              "wholly_owned_by": ("org", "org", "list")}
 
 
 def gen_population(rng):
@@ -116,6 +117,11 @@ BANK = [
     ([["o0", "Org", None], ["o1", "Dept", None], ["o2", "Org", None], ["o3", "Dept", None], ["o4", "Org", None]],
      [["o0", "sub_org_of", "o1"], ["o1", "sub_org_of", "o2"], ["o2", "sub_org_of", "o3"], ["o3", "sub_org_of", "o4"],
       ["o4", "sub_org_of", "o2"]]),
+    # a sub-property of a transitive property mixed into its chains
+    ([["o0", "Org", None], ["o1", "Org", None], ["o2", "Dept", None], ["o3", "Org", None]],
+     [["o0", "wholly_owned_by", "o1"], ["o1", "sub_org_of", "o2"], ["o2", "wholly_owned_by", "o3"]]),
+    ([["o0", "Org", None], ["o1", "Org", None], ["o2", "Org", None], ["o3", "Org", None]],
+     [["o0", "sub_org_of", "o1"], ["o1", "wholly_owned_by", "o2"], ["o2", "wholly_owned_by", "o3"], ["o3", "sub_org_of", "o0"]]),
     # role taker chains and inverses
     ([["p0", "Person", None], ["o0", "Org", None], ["o1", "Org", None], ["c0", "Chief", "p0"]],
      [["c0", "head_of", "o0"], ["p0", "member_of", "o1"], ["o1", "members", "c0"], ["o0", "sub_org_of", "o1"]]),
